@@ -16,15 +16,16 @@ VARIABLES l,
           path,    \* level 1: state kinds along the current message sequence
           role1,   \* level 1: which machine
           knows,   \* level 2: the adversary of this run uses the real cookie
-          dev      \* named deviations this run needed
-tvars == <<vars, l, path, role1, knows, dev>>
+          dev,     \* named deviations this run needed
+          refl     \* sessions that accepted a relayed digest (the only ones the deviation excuses)
+tvars == <<vars, l, path, role1, knows, dev, refl>>
 Ev == Rec[l]
 Adv == l' = l + 1
 Live == l <= N
 IsA(a) == Live /\ Ev.a = a
 Same == UNCHANGED vars
 L1Same == UNCHANGED <<path, role1>>
-ND == UNCHANGED dev
+ND == UNCHANGED <<dev, refl>>
 
 RolesAny == [s \in Sessions |-> {"server", "client"}]
 Msg == [c |-> Ev.c, k |-> Ev.k, p |-> Ev.p, n |-> Ev.n]
@@ -53,7 +54,8 @@ SendEv == /\ IsA("env.send") /\ Adv /\ L1Same /\ UNCHANGED knows /\ Ev.s \in Ses
           /\ (Ev.c = "auth" /\ Ev.p = "good") => knows      \* a right digest needs the cookie
           /\ Recv(Ev.s, Msg)
           \* a digest the node itself computed on another session and the adversary relayed
-          /\ dev' = IF Reflected(Ev.s, Msg) THEN dev \cup {"DigestReflection"} ELSE dev
+          /\ dev' = (IF Reflected(Ev.s, Msg) THEN dev \cup {"DigestReflection"} ELSE dev)
+          /\ refl' = (IF Reflected(Ev.s, Msg) THEN refl \cup {Ev.s} ELSE refl)
 
 Count(q, x) == Cardinality({i \in 1..Len(q) : q[i] = x})
 Range(q) == {q[i] : i \in 1..Len(q)}
@@ -81,15 +83,15 @@ AfterEv ==
      /\ ss' = [ss EXCEPT ![Ev.s].out = <<>>, ![Ev.s].dlv = <<>>] /\ up' = up
 End == /\ IsA("obs.end") /\ Adv /\ Same /\ L1Same /\ ND /\ UNCHANGED knows
        /\ (Ev.up = 1) = up
-       /\ (~knows /\ dev = {}) => \A s \in Sessions : ss[s].eff = {} /\ ~ss[s].everOk
+       /\ ~knows => \A s \in Sessions \ refl : ss[s].eff = {} /\ ~ss[s].everOk
        /\ (dev # {} => PrintT(<<"DEVIATION", dev>>))
 
 Reset == /\ IsA("reset") /\ Adv
          /\ ss' = [s \in Sessions |-> NoSession] /\ up' = TRUE
-         /\ path' = <<>> /\ role1' = "none" /\ knows' = TRUE /\ dev' = {}
+         /\ path' = <<>> /\ role1' = "none" /\ knows' = TRUE /\ dev' = {} /\ refl' = {}
 
 TNext == Reset \/ FsmInit \/ FsmStep \/ Plan \/ OpenEv \/ SendEv \/ AfterEv \/ End
-TInit == Init /\ l = 1 /\ path = <<>> /\ role1 = "none" /\ knows = TRUE /\ dev = {} /\ TLCSet(42, 1)
+TInit == Init /\ l = 1 /\ path = <<>> /\ role1 = "none" /\ knows = TRUE /\ dev = {} /\ refl = {} /\ TLCSet(42, 1)
 TSpec == TInit /\ [][TNext]_tvars
 Progress == TLCSet(42, IF l > TLCGet(42) THEN l ELSE TLCGet(42))
 Accepted == IF TLCGet(42) > N THEN TRUE
@@ -97,5 +99,5 @@ Accepted == IF TLCGet(42) > N THEN TRUE
                  /\ FALSE
 
 \* run-level reading of C17's first clause on the recorded executions
-NoCookieNoEffectRun == (~knows /\ dev = {}) => \A s \in Sessions : ss[s].eff = {} /\ ~ss[s].everOk /\ ~ss[s].listed
+NoCookieNoEffectRun == ~knows => \A s \in Sessions \ refl : ss[s].eff = {} /\ ~ss[s].everOk /\ ~ss[s].listed
 =============================================================================
